@@ -100,7 +100,7 @@ def main():
                 if spec.get("exit") == "exception":
                     raise BlockExit()
         except BlockExit:
-            pass
+            report["block_exception_seen"] = True
         except BaseException as e:  # noqa
             escaped = f"{type(e).__name__}: {e}"
         report["profiler_restored"] = sys.getprofile() is pre
@@ -115,7 +115,7 @@ def main():
             if spec.get("exit") == "exception":
                 raise BlockExit()
         except BlockExit:
-            pass
+            report["block_exception_seen"] = True
         except BaseException as e:  # noqa
             escaped = f"{type(e).__name__}: {e}"
     report["escaped"] = escaped
